@@ -86,7 +86,7 @@ def lexF64ok (s : List Nat) : Bool :=
 
 /-- the value of `%J` is not modelled: results that depend on it are answered `unmodelled` -/
 def oracles : Oracles :=
-  { weekdayTai := hwWeekday, lexDoy := fun s => if lexF64ok s then some Dur.ZERO else none }
+  { weekdayTai := hwWeekday, lexDoy := fun s => if lexF64ok s then some (Dur.ZERO, true, true) else none }
 
 /-! ### defect classes -/
 
